@@ -241,6 +241,7 @@ func runOracle(ctx *common.Ctx) {
 	for i := 0; i < ctx.N(10000, 100000); i++ {
 		strs = append(strs, randBytes(r, 10))
 	}
+	strs = append(strs, longByteStrings(r)...)
 	fixedSeps := []string{",", ", ", "a", "aa", "ab", "é", "\xc3", "\xa9", "\xff", "\x00", " ", "\n", "漢", "😀", "%", "=", "+", "\"", "\\"}
 	for i, s := range strs {
 		if utf8.ValidString(s) {
